@@ -217,6 +217,14 @@ fn check(case: &Case, ev: &mut CaseEv) -> CheckResult {
     let kl_zero_target = o == Obj::KL && t.iter().any(|v| *v == 0.0);
 
     let f_plain = make(o, None);
+    if case.seed & 3 == 0 {
+        // the same objective instance is first used on a tensor of another size (no state may carry over)
+        let m = 1 + (case.seed as usize >> 4) % 9;
+        let wp: Vec<f32> = (0..m).map(|i| 0.3 + 0.05 * i as f32).collect();
+        let wt: Vec<f32> = (0..m).map(|i| 0.6 - 0.03 * i as f32).collect();
+        let _ = catch(|| f_plain.loss(&Tensor::single(wp), &Tensor::single(wt)));
+        ev.class("objective instance reused across sizes");
+    }
     let pt = tens::build(&case.dims, &p);
     let tt = tens::build(&case.dims, &t);
     let (loss, grad) = catch(|| f_plain.loss(&pt, &tt)).map_err(|e| Fail::new(format!("{:?}.loss panicked: {e}", o)))?;
@@ -251,8 +259,8 @@ fn check(case: &Case, ev: &mut CaseEv) -> CheckResult {
     let mut worst = 0.0f64;
     for i in 0..n {
         let (_, _, z) = ref_elem(o, p[i], t[i], n);
-        if z {
-            continue;
+        if z && o != Obj::CE {
+            continue; // (cross-entropy's documented gradient, predicted - actual, involves no clamping)
         }
         let tol = 2e-5 * rg[i].abs() + 1e-7 * if is_prob(o) { 1.0 } else { (p[i].abs().max(t[i].abs()) as f64).max(1e-3) / n as f64 };
         let err = (g[i] as f64 - rg[i]).abs();
